@@ -488,14 +488,14 @@ fn conversion_case(owned_sources: bool, k: usize, spare: usize) {
     core::mem::forget(out);
 }
 
-// @harness name=from_conversions_e2e props=C09,C01 class=B bound="borrowed sources (&str, &String, Box<str>, Cow::Borrowed, FromStr), text <= 20 bytes" unwind=24 tier=quick fn=From<&str>,From<&String>,From<Box<str>>,From<Cow<str>>,FromStr covers=conv.e2e_inline,conv.e2e_heap timeout=1500
+// @harness name=from_conversions_e2e props=C09 class=B bound="borrowed sources (&str, &String, Box<str>, Cow::Borrowed, FromStr), text <= 20 bytes" unwind=24 tier=quick fn=From<&str>,From<&String>,From<Box<str>>,From<Cow<str>>,FromStr covers=conv.e2e_inline,conv.e2e_heap timeout=1500
 #[kani::proof]
 #[kani::stub(alloc::alloc::alloc, count_word_alloc)]
 fn from_conversions_e2e() {
     conversions_e2e(false);
 }
 
-// @harness name=from_owned_e2e props=C09,C01 class=B bound="owned sources (String, Cow::Owned), text <= 20 bytes, spare capacity 0 / 7 / 24" unwind=24 tier=quick fn=From<String>,From<Cow<str>> covers=conv.e2e_inline,conv.e2e_heap,conv.e2e_spare timeout=1500
+// @harness name=from_owned_e2e props=C09 class=B bound="owned sources (String, Cow::Owned), text <= 20 bytes, spare capacity 0 / 7 / 24" unwind=24 tier=quick fn=From<String>,From<Cow<str>> covers=conv.e2e_inline,conv.e2e_heap,conv.e2e_spare timeout=1500
 #[kani::proof]
 #[kani::stub(alloc::alloc::alloc, count_word_alloc)]
 fn from_owned_e2e() {
@@ -504,7 +504,7 @@ fn from_owned_e2e() {
 
 // the same contract on CONCRETE (length, spare capacity) pairs around the 16-byte limit: cheap
 // enough to stay decidable when a conversion goes through `with_capacity` + `push_str`
-// @harness name=from_owned_cases props=C09,C01 class=B bound="owned sources (String, Cow::Owned); (len, spare) in {(0,24),(5,24),(12,7),(16,0),(16,24),(17,7),(20,0),(20,24)}" unwind=24 tier=quick fn=From<String>,From<Cow<str>> covers=conv.e2e_inline,conv.e2e_heap,conv.e2e_spare timeout=1500
+// @harness name=from_owned_cases props=C09 class=B bound="owned sources (String, Cow::Owned); (len, spare) in {(0,24),(5,24),(12,7),(16,0),(16,24),(17,7),(20,0),(20,24)}" unwind=24 tier=quick fn=From<String>,From<Cow<str>> covers=conv.e2e_inline,conv.e2e_heap,conv.e2e_spare timeout=1500
 #[kani::proof]
 #[kani::stub(alloc::alloc::alloc, count_word_alloc)]
 fn from_owned_cases() {
